@@ -91,9 +91,9 @@ impl<'a> ast::Binary<'a> {
 }
 impl<'a> ast::FieldAccess<'a> {
     #[verifier::external_body]
-    pub fn target(self) -> (r: ast::Expr<'a>) requires self.wf(), tree_wf(self.0) ensures r.wf(), is_child_of(r.node(), self.0) { unimplemented!() }
+    pub fn target(self) -> (r: ast::Expr<'a>) requires self.wf(), tree_wf(self.0) ensures r.wf(), is_child_of(r.node(), self.0), self.0.children_s().len() > 0 && r.node() == self.0.children_s()[0] { unimplemented!() }
     #[verifier::external_body]
-    pub fn field(self) -> (r: ast::Ident<'a>) requires self.wf(), tree_wf(self.0) ensures r.wf(), is_child_of(r.node(), self.0) { unimplemented!() }
+    pub fn field(self) -> (r: ast::Ident<'a>) requires self.wf(), tree_wf(self.0) ensures r.wf(), is_child_of(r.node(), self.0), 0 <= field_idx_s(self.0) < self.0.children_s().len() && r.node() == self.0.children_s()[field_idx_s(self.0)] { unimplemented!() }
 }
 impl<'a> ast::FuncCall<'a> {
     #[verifier::external_body]
